@@ -51,15 +51,58 @@ theorem jld_json_panics_without_expok :
   decide
 
 
-/-- Theorem (3) of the task, full statement: on the expansion of every flattened expanded document
-    (`JL.writeFlat`, whose fragment denotation is the dataset itself by `C10.writeFlat_denotes`) the decoder
-    model yields exactly the dataset's quads, blank nodes labelled by `name`, in order, under every
-    rdfDirection. NOT PROVED in this round (no `…_partial` theorem either): only the decided instance
-    `Witness.flat_roundtrip` / `Witness.flat_spec` below; the harness checks the equation on every flat
-    case (stage `flat`: model output = dataset, expandFlat = real expansion). -/
+/-- The statement of the task at full strength: for every `C10.WFDataset`. It is FALSE (see
+    `flat_drops_untagged`): `C10.WFDataset` admits an untagged literal whose datatype is rdf:langString or
+    rdf:dirLangString, the fragment semantics keeps it, the decoder drops it (deliberately: the repair of
+    the C06 finding "explicit rdf:langString datatype yielded a tagged-string literal without a tag"). -/
 def jld_refines_fragment : Prop :=
   ∀ (cfg : Cfg) (name : Nat → Str), (∀ b, name b ≠ []) → ∀ d : List (DQuad Nat), C10.WFDataset d →
     run cfg (expandFlat (JL.writeFlat name d)) = .done (d.map (toRQ name)) none
+
+/-- **Refinement on flattened expanded documents (partial).** For every well-formed dataset `d`
+    (`C10.WFDataset`, as in `writeFlat_denotes`) without untagged rdf:langString / rdf:dirLangString
+    literals (`NoUntaggedLangString`, decidable; the only gap to the full statement), every labelling of
+    its blank nodes by non-empty labels and every rdfDirection, the decoder model run on the expansion
+    of `JL.writeFlat name d` (`expandFlat`, tied to jsonldinternal.Expand by T3) ends without error and
+    yields EXACTLY the quads of `d`, in order, blank node `b` as `_:name b` — no blank node is generated. -/
+theorem jld_refines_fragment_partial {β : Type} (cfg : Cfg) (name : β → Str) (hne : ∀ b, name b ≠ [])
+    (d : List (DQuad β)) (hwf : C10.WFDataset d) (hpl : NoUntaggedLangString d) :
+    run cfg (expandFlat (JL.writeFlat name d)) = .done (d.map (toRQ name)) none :=
+  Proofs.C10D.run_flat cfg name hne d hwf hpl
+
+/-- the excluded class is really excluded: the fragment semantics keeps the literal, the decoder model
+    (and the Go decoder, replayed) yields nothing -/
+def untaggedDataset : List (DQuad Nat) :=
+  [⟨⟨.iri (asc "http://e.org/s"), asc "http://e.org/p", .lit (asc "x") rdfLangString none⟩, none⟩]
+
+theorem flat_drops_untagged :
+    C10.WFDataset untaggedDataset ∧ ¬ NoUntaggedLangString untaggedDataset ∧
+    run ⟨.none⟩ (expandFlat (JL.writeFlat (fun _ => asc "b") untaggedDataset)) = .done [] none ∧
+    (JL.toRdf true none (JL.writeFlat (fun _ => asc "b") untaggedDataset)).map List.length = some 1 := by decide
+
+theorem jld_refines_fragment_false : ¬ jld_refines_fragment := by
+  intro h
+  have h1 := h ⟨.none⟩ (fun _ => asc "b") (by intro b; decide) untaggedDataset flat_drops_untagged.1
+  rw [flat_drops_untagged.2.2.1] at h1
+  exact absurd h1 (by decide)
+
+/-- a quad of the fragment semantics as the decoder emits it -/
+def ofQ (q : DQuad B) : RQ := ⟨some q.t.s, q.t.p, some q.t.o, q.g⟩
+
+/-- **Round trip through the decoder MODEL.** Composition of `C10.writeFlat_denotes` (= `Proofs.C10.writeFlat_denotes`, used directly so that this
+    part does not import Props/C10.lean, which another builder is editing) with
+    `jld_refines_fragment_partial`: for every well-formed dataset without untagged rdf:langString
+    literals, every processing mode, base and rdfDirection, the document `writeFlat name d` denotes (by
+    the fragment semantics `JL.toRdf`) a dataset `out`, the decoder model run on its expansion yields
+    exactly `out` (no error, same order), and `out` is `d` with blank node `b` renamed to `_:name b`. -/
+theorem jld_flat_roundtrip {β : Type} (cfg : Cfg) (name : β → Str) (hne : ∀ b, name b ≠ []) (mode11 : Bool) (base : Option Str)
+    (d : List (DQuad β)) (hwf : C10.WFDataset d) (hpl : NoUntaggedLangString d) :
+    ∃ out, JL.toRdf mode11 base (JL.writeFlat name d) = some out ∧
+      run cfg (expandFlat (JL.writeFlat name d)) = .done (out.map ofQ) none ∧
+      out = d.map (DQuad.map (fun b => BN.orig (name b))) := by
+  refine ⟨_, Proofs.C10.writeFlat_denotes name hne mode11 base d hwf, ?_, rfl⟩
+  rw [jld_refines_fragment_partial cfg name hne d hwf hpl, List.map_map]
+  rfl
 
 namespace Witness
 def name (n : Nat) : Str := JL.natDigits n
@@ -68,16 +111,47 @@ def d : List (DQuad Nat) :=
    ⟨⟨.bnode 1, asc "http://e.org/q", .lit (asc "chat") rdfLangString (some (asc "fr"))⟩, some (.iri (asc "http://e.org/g"))⟩,
    ⟨⟨.bnode 1, asc "http://e.org/q", .lit (asc "1") (asc "http://www.w3.org/2001/XMLSchema#integer") none⟩, some (.bnode 2)⟩]
 theorem wf : C10.WFDataset d := by decide
+theorem plain : NoUntaggedLangString d := by decide
 theorem flat_roundtrip : run ⟨.none⟩ (expandFlat (JL.writeFlat name d)) = .done (d.map (toRQ name)) none := by decide
 theorem flat_sorted : (expandFlat (JL.writeFlat name d)).membersSorted = true := by decide
 theorem flat_spec : (JL.toRdf true none (JL.writeFlat name d)).map (·.map fun q => (⟨some q.t.s, q.t.p, some q.t.o, q.g⟩ : RQ)) = some (d.map (toRQ name)) := by decide
 end Witness
 
-/-- C06 for the deserialize stage, full statement (NOT proved in this round; checked by the harness on
-    every statement the real decoder yields: `illFormed` in go/cmd/c10d mirrors `WfRQ`). -/
-def jld_emits_wf : Prop :=
-  ∀ (cfg : Cfg) (c : ECtx) (e : Exp) (n : Nat), cfg.dir ≠ .other → ECtx.ok c = true →
-    ∀ q ∈ R.quads (decodeElement cfg c e n), WfRQ q = true
+/-- **C06, deserialize stage.** Every statement decodeElement appends — also the statements appended
+    before an error — is well-formed (`WfRQ`: subject an IRI or blank node, never nil; predicate a
+    non-empty IRI; object never nil; a literal has a datatype, and a non-empty language tag exactly when
+    its datatype is rdf:langString; no untagged rdf:langString / rdf:dirLangString; graph name nil, IRI
+    or blank node), for every expanded tree the type `Exp` admits (no `ExpOK` needed), every counter,
+    every evaluation context satisfying `ECtx.ok` (an active property comes with an IRI/blank-node
+    subject and is not empty; the graph name is an IRI or blank node) and every rdfDirection newDecoder
+    admits (`cfg.dir ≠ .other`; `wf_fails_for_other` shows the hypothesis is needed). -/
+theorem jld_emits_wf (cfg : Cfg) (c : ECtx) (e : Exp) (n : Nat) (hdir : cfg.dir ≠ .other) (hc : ECtx.ok c = true) :
+    ∀ q ∈ R.quads (decodeElement cfg c e n), WfRQ q = true :=
+  Proofs.C10D.decodeElement_wf cfg hdir c (Proofs.C10D.ctxOK_of_ok hc) e n
+
+example : ECtx.ok { graph := some (.bnode (.fresh 0)), subj := some (.iri (asc "http://e/s")), prop := some (asc "http://e/p"), rev := true } = true := by
+  decide
+
+/-- … and so is every statement a caller of Next/Quad sees (`run`: parseRoot from the root context,
+    then the iteration protocol, which after an error still yields the first appended statement). -/
+theorem jld_run_emits_wf (cfg : Cfg) (e : Exp) (hdir : cfg.dir ≠ .other) :
+    ∀ qs er, run cfg e = .done qs er → ∀ q ∈ qs, WfRQ q = true := by
+  intro qs er h q hq
+  have hwf := jld_emits_wf cfg ECtx.root e 0 hdir (by decide)
+  unfold run decodeRoot at h
+  split at h
+  · rename_i qs' n' heq
+    simp only [Outcome.done.injEq] at h
+    rw [heq] at hwf
+    exact hwf q (by simpa [R.quads, h.1] using hq)
+  · rename_i er' qs' heq
+    simp only [Outcome.done.injEq] at h
+    rw [heq] at hwf
+    have : q ∈ qs' := by
+      rw [← h.1] at hq
+      exact List.mem_of_mem_take hq
+    exact hwf q (by simpa [R.quads] using this)
+  · simp at h
 
 def wfTree : Exp :=
   .arr [.obj [(kId, .prim (.str (asc "_:s")) .absent), (kType, .arr [.prim (.str (asc "http://e/T")) .absent]),
